@@ -217,3 +217,11 @@ def add_vecext(U, props):
                                    assumed='removed(old(self)@, to_remove@, final(self)@) given strictly increasing in-range indices',
                                    note='body = Vec::retain with a stateful closure: rejected by Verus, CBMC out of memory; checked by bounded-rac only')},
            extra_members=VECEXT_IMPL_MEMBERS)
+
+
+POSITION_SPEC = '''
+// slice::Iter::position: a hit is an index into what was left of the iterator
+pub assume_specification<'a, T, P: FnMut(&'a T) -> bool> [<core::slice::Iter<'a, T> as Iterator>::position] (it: &mut core::slice::Iter<'a, T>, pred: P) -> (r: Option<usize>)
+    where core::slice::Iter<'a, T>: Sized
+    ensures match r { Some(i) => i < old(it).remaining().len(), None => true };
+'''
